@@ -32,8 +32,11 @@ def handle (st : St) (line : String) : St × String :=
   | ["bt", "trygc", n] =>
     match Bytes.ofHex n with
     | some n =>
-      let (y, r) := Emu.Bt.xstep ⟨st.bt, st.btAct⟩ (.tryGc n)
-      ({ st with bt := y.srv, btAct := y.act }, showResp r)
+      let y0 : Emu.Bt.Sys := ⟨st.bt, st.btAct⟩
+      let (y, r) := Emu.Bt.xstep y0 (.tryGc n)
+      -- the implementation cannot say whether its pass ran; the Model's answer does (for the evidence)
+      let ran := (y0.srv.find n).isSome && (y0.activity n).quiet
+      ({ st with bt := y.srv, btAct := y.act }, showResp r ++ (if showResp r == "ok" then (if ran then " ran" else " skipped") else ""))
     | none => (st, "bad-op")
   | "bt" :: rest =>
     match (do let op ← pBtOp; atEnd; pure op : P Emu.Bt.Op).run rest with
